@@ -1,0 +1,82 @@
+//go:build verif
+
+package eval
+
+// Instrumentation for external runtime monitors. Compiled only with the
+// `verif` build tag; the default build uses the no-op in verif_off.go.
+
+const (
+	// VerifKindTop: reported at the top of the evaluation loop body,
+	// before the node at pc is executed.
+	VerifKindTop uint8 = 0
+	// VerifKindPush: reported right after a result was pushed on the
+	// operand stack (osTop is the slot that was written).
+	VerifKindPush uint8 = 1
+
+	VerifModeEval    uint8 = 0
+	VerifModeTryEval uint8 = 2
+)
+
+// VerifStepHook, when non-nil, observes every step of Eval / TryEval.
+// kind is VerifKindTop/VerifKindPush ORed with VerifModeEval/VerifModeTryEval.
+// It must be set before any evaluation starts and not changed afterwards.
+var VerifStepHook func(ctx *Ctx, e *Expr, kind uint8, pc int16, osTop int16, osLen int)
+
+func verifStep(ctx *Ctx, e *Expr, kind uint8, pc int16, osTop int16, osLen int) {
+	if h := VerifStepHook; h != nil {
+		h(ctx, e, kind, pc, osTop, osLen)
+	}
+}
+
+// VerifNode is a read-only copy of one node of the flat program.
+type VerifNode struct {
+	Flag     uint8
+	ChildCnt int8
+	ScIdx    int16
+	OsTop    int16
+	VarKey   VariableKey
+	Value    Value
+	HasOp    bool
+	Parent   int16
+}
+
+// VerifProg is a read-only deep copy of the flat program of an Expr.
+type VerifProg struct {
+	MaxStackSize int16
+	Nodes        []VerifNode
+}
+
+func verifCopyValue(v Value) Value {
+	switch x := v.(type) {
+	case []int64:
+		return append([]int64{}, x...)
+	case []string:
+		return append([]string{}, x...)
+	case LoopEventData:
+		x.NodeValue = verifCopyValue(x.NodeValue)
+		return x
+	}
+	return v
+}
+
+// VerifProgram exports a deep copy of the compiled program.
+func VerifProgram(e *Expr) VerifProg {
+	p := VerifProg{MaxStackSize: e.maxStackSize, Nodes: make([]VerifNode, len(e.nodes))}
+	for i, n := range e.nodes {
+		vn := VerifNode{
+			Flag:     n.flag,
+			ChildCnt: n.childCnt,
+			ScIdx:    n.scIdx,
+			OsTop:    n.osTop,
+			VarKey:   n.varKey,
+			Value:    verifCopyValue(n.value),
+			HasOp:    n.operator != nil,
+			Parent:   -1,
+		}
+		if i < len(e.parentIdx) {
+			vn.Parent = e.parentIdx[i]
+		}
+		p.Nodes[i] = vn
+	}
+	return p
+}
